@@ -95,3 +95,53 @@ Example ex_eliminate_rejects :   (* Q(y) :- T(x): y cannot be determined *)
   eliminate (fun v => Nat.leb 1000 v) [1000] {| sel := [(0, PVar 1)]; unifs := [(PVar 1, PVar 1001); (PVar 1000, PVar 0)]; cons := [] |}
   = Some (inl [1001]).
 Proof. vm_compute. reflexivity. Qed.
+
+(* the WHERE and SELECT computed by elimination are right for every row choice rho of the FROM tables *)
+Theorem C01_where_and_select_right_for_every_row_choice :
+  forall app is_x E s s', eliminate is_x E s = Some (inr s') ->
+  forall rho : var -> val,
+  (solves app rho s' ->
+     exists sg, (forall x, In x E -> sg x = rho x) /\ solves app sg s /\ output app sg s = output app rho s') /\
+  (forall sg, (forall x, In x E -> sg x = rho x) -> solves app sg s ->
+     (forall s1 l r, represents app E s s1 -> In (l, r) (unifs s1) -> peval app sg l <> VNull) ->
+     solves app rho s' /\ output app rho s' = output app sg s).
+Proof. exact eliminate_row_choice. Qed.
+
+(* ---- the compile path of one conjunctive rule: ExtractRuleStructure (model Core/Extract.v, tied
+   structure-for-structure to rule_translate.ExtractRuleStructure by props/c01.py), variable elimination,
+   and the FROM / WHERE / SELECT reading of the result.  SQL emits one row per row choice of the FROM product
+   that passes WHERE, so these two theorems are the bag equality for a single rule:
+   multiplicities multiply over the atoms of a conjunction. *)
+From LV Require Import Core.Extract Core.ExtractProofs.
+
+Theorem C01_compiled_rule_emits_only_derived_rows :
+  forall app is_x r final rho out,
+  compiled is_x r final -> wf_choice (x_cols (extract r)) rho ->
+  sql_row app (x_cols (extract r)) final rho = Some out ->
+  exists tau, derives app tau rho r /\ head_row app tau r = out.
+Proof. exact compile_sound. Qed.
+
+Theorem C01_compiled_rule_emits_every_derived_row :
+  forall app is_x r final rho tau,
+  compiled is_x r final -> cells_ok tau (x_cols (extract r)) rho ->
+  (forall l r0, In (l, r0) (fst (extract_head (k_head r) 0)) -> Elim.peval app tau l = Elim.peval app tau r0) ->
+  derives app tau rho r ->
+  (forall s1 l r0, represents app (map fst (x_cols (extract r))) (x_rs (extract r)) s1 ->
+     In (l, r0) (unifs s1) -> Elim.peval app tau l <> VNull) ->
+  sql_row app (x_cols (extract r)) final rho = Some (head_row app tau r).
+Proof. exact compile_complete. Qed.
+
+(* non-vacuity: Q(y, x) :- T(x, z), z == 2, y == x + 1   over T = {(1,2), (5,3)} *)
+Definition ex_rule : crule :=
+  {| k_head := [(0, PVar 1); (1, PVar 0)];
+     k_body := [KAtom 7 [(0, PVar 0); (1, PVar 2)]; KUnify (PVar 2) (PLit (VInt 2));
+                KUnify (PVar 1) (PBin OAdd (PVar 0) (PLit (VInt 1)))] |}.
+Definition ex_final : rs :=
+  {| sel := [(0, PBin OAdd (PVar 1002) (PLit (VInt 1))); (1, PVar 1002)]; unifs := [];
+     cons := [PBin OEq (PVar 1003) (PLit (VInt 2))] |}.
+Example ex_compiled : compiled (fun v => Nat.leb 1000 v) ex_rule ex_final.
+Proof. vm_compute. reflexivity. Qed.
+Example ex_sql_rows :
+  sql_row (fun _ _ => VNull) (x_cols (extract ex_rule)) ex_final [[(0, VInt 1); (1, VInt 2)]] = Some [(0, VInt 2); (1, VInt 1)] /\
+  sql_row (fun _ _ => VNull) (x_cols (extract ex_rule)) ex_final [[(0, VInt 5); (1, VInt 3)]] = None.
+Proof. split; vm_compute; reflexivity. Qed.
